@@ -2,7 +2,6 @@ package c16
 
 import (
 	"fmt"
-	"os"
 	"sort"
 	"testing"
 
@@ -83,20 +82,13 @@ func checkHistory(cs *Case) (out outcome) {
 	return
 }
 
-// known applies the generator-side exclusions of the known-finding classes (each is shown on its own by a replay file).
+// known applies the models of the real senders and the generator-side exclusion of the one still-open known-finding class
+// (overlapping groups after a shard-duration change, shown by replays/C16/overlap_after_shard_duration_change.json). All other
+// classes found so far are repaired in /repo and are generated freely.
 func known(p mg.Profile) mg.Profile {
 	p.IndexDeleteOnlyWhenUnreferenced = true // model of the retention service, not a finding
 	p.NoCancelDeleteNextToReplacement = true // model of "recall data": expired spans are not written to, not a finding
-	if os.Getenv("C16_STRICT") != "" {
-		return p
-	}
-	p.NoAmbiguousDropSubscription = true // C15's finding: which subscription goes depends on map iteration order
-	p.NoMixedShardType = true            // C15's finding: with two sharding types in a policy the catalogue depends on map iteration order
-	p.NoSGDurChangeWithLiveGroups = true
-	p.NoDropDefaultRP = true
-	p.NoInitShardsAboveGroupSize = true
-	p.NoSchemaConflictAfterNewField = true
-	p.NoTagFieldNameClash = true
+	p.NoSGDurChangeWithLiveGroups = true     // open: C16-overlap-after-shard-duration-change
 	return p
 }
 
@@ -251,7 +243,6 @@ func TestCatalogueBroad(t *testing.T) {
 		delete(w, "resharding")  // splits the newest group of a range-sharded policy: overlapping spans by design
 		delete(w, "mergeshards") // merges groups: spans no longer aligned by design
 		p := known(mg.Profile{Weights: w})
-		p.NoDownSampleReportAcrossSparseGroups = true
 		runCatalogue(t, c, "catalogue_broad", p, 60)
 	}))
 }
